@@ -111,6 +111,8 @@ func (l recLogger) log(level, msg string, fields []zap.Field) {
 		m[k] = fmt.Sprint(v)
 	}
 	l.i.r.add(Event{Kind: "log", Inst: l.i.spec.Name, Msg: msg, Fields: m})
+	// the logger is user code: scenarios can hold the library at any of its log lines
+	l.i.r.St.Client(l.i.spec.Name).atPhase("log:"+msg, "sink")
 }
 func (l recLogger) Debug(msg string, f ...zap.Field) { l.log("debug", msg, f) }
 func (l recLogger) Info(msg string, f ...zap.Field)  { l.log("info", msg, f) }
@@ -531,6 +533,26 @@ func (r *Runner) run() {
 			r.add(Event{Kind: "harness.error", Inst: i.spec.Name, S: "build: " + err.Error()})
 			return
 		}
+	}
+	for k := range spec.Reactions {
+		re := &spec.Reactions[k]
+		ch := r.St.HitChan(re.Break)
+		if ch == nil {
+			continue
+		}
+		r.acts.Add(1)
+		go func() {
+			defer r.acts.Done()
+			select {
+			case <-ch:
+			case <-r.quit:
+				return
+			}
+			r.add(Event{Kind: "break.reached", S: re.Break})
+			for j := range re.Actions {
+				r.act(&re.Actions[j])
+			}
+		}()
 	}
 	for k := range spec.Actions {
 		a := &spec.Actions[k]
